@@ -281,7 +281,7 @@ func (br *bodyRun) havocInferred(st *State, keys map[string]string, callee *ssa.
 			for _, b := range br.fn.Blocks {
 				for _, ins := range b.Instrs {
 					a, ok := ins.(*ssa.Alloc)
-					if !ok || a.Comment == "" {
+					if !ok || (a.Comment == "" && a.Heap) {
 						continue
 					}
 					p, ok := fc.vals[a].(PtrV)
